@@ -16,6 +16,7 @@ def close(a, b, scale=0.0, rel=1e-9, absl=1e-12):
 def solve_case(desc, solve_kw=None, rail_rep=False):
     """returns (sys, df, exc)"""
     solve_kw = dict(solve_kw or {})
+    solve_kw.update(desc.get("_call") or {})       # call options chosen with the case (e.g. quiet=False: display only, same results)
     sys_, e = sysdesc.quiet_call(sysdesc.build, desc)
     if e is not None:
         return None, None, ("build", e)
@@ -191,6 +192,26 @@ def sweep_residuals(ctx, desc, obs, model, vtol, itol, relprefix=""):
                          {"phase": p["phase"], "row": r["name"], "impl_i": r["iin"], "model_G": gv})
 
 
+def rows_incomplete(desc, obs):
+    """None, or what is wrong with the component rows of the observed table (per phase: exactly the description's components)"""
+    want = sorted(c["name"] for c in desc["comps"])
+    for p in obs["phases"]:
+        got = sorted(r["name"] for r in p["rows"])
+        if got != want:
+            return {"phase": p["phase"], "missing_rows": [n for n in want if n not in got],
+                    "unexpected_or_duplicate_rows": [n for n in got if n not in want or got.count(n) > 1]}
+    return None
+
+
+def rows_ok(ctx, desc, obs):
+    """every statement about "the solve() table" presupposes one row per component and phase: a component without a row (or listed
+    twice) is a failing input of the property at hand, not something to index into"""
+    bad = rows_incomplete(desc, obs)
+    if bad is not None:
+        ctx.oracle(desc, "one_row_per_component", "table", {}, bad)
+    return bad is None
+
+
 def run_cases(ctx, n, gen_fn, per_case, solve_kw_fn=None, accept_errors=("ValueError(unstable)", "RuntimeError"),
               carrier="rat"):
     """generate → build → solve → certify → per_case.  Construction failures are skipped and counted."""
@@ -203,6 +224,8 @@ def run_cases(ctx, n, gen_fn, per_case, solve_kw_fn=None, accept_errors=("ValueE
             kw = solve_kw_fn(ctx.rng, desc)           # settings that depend on the system (e.g. phase=<one of its phases>)
         else:
             kw = solve_kw_fn(ctx.rng)
+        if "_solve_kw" in desc:
+            kw = dict(desc["_solve_kw"])              # call arguments chosen with the case (kept for the replay)
         sys_, df, err = solve_case(desc, kw)
         if err is not None:
             cls = sysdesc.exc_class(err[1])
@@ -213,6 +236,9 @@ def run_cases(ctx, n, gen_fn, per_case, solve_kw_fn=None, accept_errors=("ValueE
                 ctx.notes.append("skipped case %d: %s %r" % (k, err[0], err[1])) if len(ctx.notes) < 10 else None
             continue
         obs = sysdesc.observe(df)
+        if not rows_ok(ctx, desc, obs):
+            ctx.case(nontrivial=False)
+            continue
         model = cert(ctx.drv, desc, obs, ta=kw.get("ta", 25.0), carrier=carrier)
         ctx.stats["outcome:ok"] += 1
         shape_stats(ctx, desc)
@@ -242,6 +268,8 @@ def run_witnesses(ctx, per_case, prop=None, kw=None):
         if err is not None:
             continue
         obs = sysdesc.observe(df)
+        if not rows_ok(ctx, desc, obs):
+            continue
         model = cert(ctx.drv, desc, obs, ta=kw.get("ta", 25.0))
         if model.get("ok"):
             per_case(ctx, desc, obs, model, sys_, df, kw)
